@@ -25,6 +25,11 @@ CORPUS = [
     "# comment", "  ask\nbot inform\n  \"{{ 1234*5 }} $user_message\"", "A" * 10000, "bot inform " * 300, "\"" * 51,
     "user ask\n  bot inform\n  user ask\n  bot inform", "bot $x", "bot {{x}}", "  express greeting\nbot express greeting", "1/0", "[1, 2", "{'a': ", "__import__('os')", "bot a\nbot b\n$x = 1/0", "$x = 1/0", "bot a\nbot b\n  $y = (((", "bot a\nexecute nothing_registered", "bot a\nbot b\nelse",
     "'{$v} {{ 1234*5 }}'", "'$user_message {$x}'", "[...]", "b'bytes'", "1j", "{1, 2}", "(1, 2)", "{1: 'a'}", "-5", "1e400",
+    # containers whose *keys* / nested members are values the state cannot hold
+    "{...: 1}", "{b'k': 1}", "{1j: 'x'}", "{(1, ...): 'x'}", "{(1, 2): 'x'}", "{None: 1}", "{True: 1, 1.5: 2}", "[{...: 1}]", "{'a': {b'k': 1}}",
+    "[(1, 2), {3}]", "{'a': (1, [2, ...])}", "{frozenset({1}): 1}",
+    # bot intents that name context variables which are not strings
+    "bot $event", "bot $generation_options", "bot $relevant_chunks", "bot $last_user_message", "  ask\nbot $event",
 ]
 
 MODES_V1 = {
